@@ -7,21 +7,24 @@ META = dict(
     id='C20',
     model_run='PG.Model.HtmlDoc.run',
     model_targets=['Model/HtmlDoc.vo'],
-
-    technique=('Coq proof over an executable model of Html.element / html.escape / HtmlTreeView (induction on the rendered tree and on the value, any depth, any strings) '
+    technique=('Coq proof over an executable model of Html.element / html.escape / HtmlTreeView / Html.to_str (induction on the rendered tree and on the value, any depth, any strings) '
                '+ a strict HTML parser written as a pushdown automaton and proved to read back every rendered tree '
-               '+ differential correspondence (model output must equal pg.to_html_str character by character) + sentinel oracle on the real output'),
+               '+ CSS constants and the document-assembly functions regenerated / re-checked from the source by a fail-closed ast translator '
+               '+ differential correspondence (model output must equal pg.to_html_str character by character, content and whole document) + sentinel oracle on the real output'),
     design_ref='DESIGN.md §5 C20',
-    level_text=('Theorems: escape never emits < > " \' and every & it emits starts one of five entities; unescape inverts escape; every tree built from element/text nodes '
-                'renders to a string the strict parser reads back as exactly that tree (well nested, closed, at any depth); for every value and option record the tree view '
-                'renders to a string that parses to elements/options/attributes of a fixed vocabulary only, whatever strings the value carries; every included key and every leaf is a text node. '
-                'Tie: the model is run on every generated (options, value) and its output compared, character by character, with pg.to_html_str(value, content_only=True, **options); '
+    level_text=('Theorems: escape never emits < > " \' and every & it emits starts one of five entities; unescape inverts escape; every tree built from element/text nodes and constant style blocks '
+                'renders to a string the strict parser reads back as exactly that tree (well nested, closed, at any depth); for every value and option record (15 options) the tree view, and the whole '
+                '<html><head><style>..</style></head><body>..</body></html> document, render to a string that parses to elements/options/attributes of a fixed vocabulary only, whatever strings the value carries; '
+                'every included key and every leaf is a text node; no text of the value is in the head. '
+                'Tie: the model is run on every generated (options, value) and its output compared, character by character, with pg.to_html_str(value, **options) both with content_only=True and as the full document; '
+                'the CSS constants are regenerated from tree_view.py each run and the proofs re-checked; '
                 'the Python strict tokenizer used by the oracle is compared with the proved Coq parser on real, broken and mutated outputs; html.escape is compared with the model escape.'),
-    level_note=('Trusted: Coq kernel; extraction (ExtrOcamlBasic) cross-checked against vm_compute; the harness conversion of a Python value to the model value, which calls '
+    level_note=('Trusted: Coq kernel; translator harness/translators/html_styles.py; extraction (ExtrOcamlBasic) cross-checked against vm_compute; the harness conversion of a Python value to the model value, which calls '
                 'utils.format / repr / camel_to_snake to fill the strings the model treats as arbitrary (fmt, rep, cname). Modelled, not verified: those three functions (arbitrary strings in every theorem). '
-                'Options covered by the oracle only (no skeleton comparison): see coverage.options_oracle_only.'),
-    rule=('a case is (value, options); distinct by (repr of value shape+data, options); non-trivial when the value carries at least one string/key/class name with an HTML metacharacter'),
-    trusted_base=['extraction: ExtrOcamlBasic only; ocaml/main.ml lexer/printer; cross-checked against vm_compute on a sample',
+                'Options and value kinds covered by the oracle only (no model comparison): see coverage.options_oracle_only; HTML controls: oracle only.'),
+    rule=('a case is (value, options) [or a control, a document for the tokenizer, a string for escape]; distinct by (generator seeds / literal, options); non-trivial when the value carries at least one string/key/class name with an HTML metacharacter'),
+    trusted_base=['translator harness/translators/html_styles.py (fail-closed ast reader: CSS literals of HtmlTreeView, shapes of Html.to_str / head_section / style_section / script_section / body_section / Styles.content)',
+                  'extraction: ExtrOcamlBasic only; ocaml/main.ml lexer/printer; cross-checked against vm_compute on a sample',
                   'harness value conversion (harness/props/c20.py conv): type name, css class name, repr and utils.format strings are computed by calling the library on the real value and passed to the model as data'],
     assumptions=['utils.format, repr and camel_to_snake are uninterpreted: the model and all theorems quantify over every string they could return'],
 )
